@@ -275,7 +275,12 @@ class Exec:
             return self.load(lv, line)
         if k == "postinc":
             lv = self.lval(e[1])
+            nread = len(self.rw["read"]) if self.rw else 0
             old = self.load(lv, line)
+            if self.rw is not None:
+                del self.rw["read"][nread:]
+                if lv[0] == "scalar":
+                    self.rw["inc"].add(lv[1])
             self.store(lv, old + 1, line)
             return old
         if k == "preinc":
@@ -340,8 +345,12 @@ class Exec:
         self.ob("input-read-in-bounds", z3.And(off >= 0, off < self.st.end), "read of *start outside [chunk start, end)", line)
         return z3.Select(self.In, off)
 
+    rw = None
+
     def load(self, lv, line):
         if lv[0] == "scalar":
+            if self.rw is not None:
+                self.rw["read"].append(lv[1])
             return self.get(lv[1])
         if lv[0] == "inval":
             return self.st.inval
@@ -532,7 +541,14 @@ class Exec:
                 self.pp(s[1])
             return
         if k == "expr":
-            self.ev(s[1], s[2])
+            self.rw = {"inc": set(), "read": []}
+            try:
+                self.ev(s[1], s[2])
+                both = [k2 for k2 in self.rw["inc"] if k2 in self.rw["read"]]
+                if both:
+                    self.ob("unsequenced", False, f"state->{both[0][1]} is modified (++) and read in the same expression without a sequence point: undefined behaviour", s[2])
+            finally:
+                self.rw = None
             return
         if k == "decl":
             if s[2] != "inval":
